@@ -27,6 +27,21 @@ type HRow struct {
 	DeletedAt gorm.DeletedAt
 }
 
+type ctxKey struct{}
+
+// hookLog collects what the model's hooks saw (hooks run in DryRun too).
+var hookLog []string
+
+func (h *HRow) BeforeCreate(tx *gorm.DB) error {
+	hookLog = append(hookLog, fmt.Sprint("BeforeCreate ctx=", tx.Statement.Context.Value(ctxKey{})))
+	return nil
+}
+
+func (h *HRow) AfterFind(tx *gorm.DB) error {
+	hookLog = append(hookLog, fmt.Sprint("AfterFind ctx=", tx.Statement.Context.Value(ctxKey{})))
+	return nil
+}
+
 var fixedNow = time.Date(2022, 3, 4, 5, 6, 7, 0, time.UTC)
 
 type Call struct {
@@ -124,15 +139,36 @@ func apply(tx *gorm.DB, c Call) *gorm.DB {
 		return tx.Debug()
 	case "SessionNewDB":
 		return tx.Session(&gorm.Session{NewDB: true})
+	case "SessionCtx":
+		return tx.Session(&gorm.Session{Context: context.WithValue(context.Background(), ctxKey{}, fmt.Sprint("v", c.N))})
+	case "SessionNewDBCtx":
+		return tx.Session(&gorm.Session{NewDB: true, Context: context.WithValue(context.Background(), ctxKey{}, fmt.Sprint("v", c.N))})
+	case "SessionSkipHooks":
+		return tx.Session(&gorm.Session{SkipHooks: true})
+	case "SessionNewDBSkipHooks":
+		return tx.Session(&gorm.Session{NewDB: true, SkipHooks: true})
+	case "SessionNewDBPrepare":
+		return tx.Session(&gorm.Session{NewDB: true, PrepareStmt: true})
+	case "SessionFull":
+		return tx.Session(&gorm.Session{NewDB: true, SkipHooks: true, PrepareStmt: true, SkipDefaultTransaction: true, AllowGlobalUpdate: true, QueryFields: true,
+			Context: context.WithValue(context.Background(), ctxKey{}, fmt.Sprint("f", c.N))})
 	}
 	panic("apply " + c.M)
 }
 
 // finish runs the finisher and returns the observation token.
-func (e *env) finish(tx *gorm.DB, f string) string {
+// hasModel: the path names a model or table itself, so finishers that need one run directly on the value.
+func (e *env) finish(tx *gorm.DB, f string, hasModel bool) string {
 	e.rec.Reset()
+	hookLog = nil
 	var res *gorm.DB
 	extra := ""
+	withModel := func() *gorm.DB {
+		if hasModel {
+			return tx
+		}
+		return tx.Model(&HRow{})
+	}
 	switch f {
 	case "Find":
 		var out []HRow
@@ -146,11 +182,11 @@ func (e *env) finish(tx *gorm.DB, f string) string {
 		res = tx.Take(&out)
 	case "Count":
 		var n int64
-		res = tx.Model(&HRow{}).Count(&n)
+		res = withModel().Count(&n)
 		extra = fmt.Sprint(n)
 	case "Pluck":
 		var ids []int64
-		res = tx.Model(&HRow{}).Pluck("id", &ids)
+		res = withModel().Pluck("id", &ids)
 		extra = fmt.Sprint(ids)
 	case "Update":
 		res = tx.Model(&HRow{}).Where("id > ?", 0).Update("c", 5)
@@ -158,7 +194,7 @@ func (e *env) finish(tx *gorm.DB, f string) string {
 		res = tx.Where("id > ?", 100).Delete(&HRow{})
 	case "Scan":
 		var out []struct{ ID int64 }
-		res = tx.Model(&HRow{}).Scan(&out)
+		res = withModel().Scan(&out)
 	case "FirstOrInit":
 		var out HRow
 		res = tx.Where(HRow{A: 999}).FirstOrInit(&out)
@@ -168,6 +204,8 @@ func (e *env) finish(tx *gorm.DB, f string) string {
 	default:
 		panic("finish " + f)
 	}
+	// what the finisher ran with: context value, hook switch, connection pool kind, what the hooks saw
+	extra += fmt.Sprintf(" ctx=%v skip=%v pool=%T hooks=%v", res.Statement.Context.Value(ctxKey{}), res.Statement.SkipHooks, res.Statement.ConnPool, hookLog)
 	if e.real {
 		// the statements the driver saw (ignoring transaction control)
 		tok := ""
@@ -207,7 +245,20 @@ func isolated(real bool, path []Call, f string) (string, error) {
 	for _, c := range path {
 		tx = apply(tx, c)
 	}
-	return e.finish(tx, f), nil
+	return e.finish(tx, f, hasModel(path)), nil
+}
+
+func hasModel(path []Call) bool {
+	ok := false
+	for _, c := range path {
+		switch c.M {
+		case "Model", "Table":
+			ok = true
+		case "SessionNewDB", "SessionNewDBCtx", "SessionNewDBSkipHooks", "SessionNewDBPrepare", "SessionFull":
+			ok = false
+		}
+	}
+	return ok
 }
 
 // run executes a history; returns the event.
@@ -229,12 +280,12 @@ func run(caseNo int, real bool, ops []Op) (hx.M, error) {
 			paths[a.To] = append(append([]Call{}, paths[a.From]...), c)
 			out = append(out, hx.M{"op": a.Op, "from": a.From, "to": a.To, "m": a.M})
 		case "session":
-			c := Call{M: a.M, N: 0}
+			c := Call{M: a.M, N: a.To}
 			vals[a.To] = apply(vals[a.From], c)
 			paths[a.To] = append(append([]Call{}, paths[a.From]...), c)
 			out = append(out, hx.M{"op": a.Op, "from": a.From, "to": a.To, "m": a.M})
 		case "finish":
-			obs := e.finish(vals[a.From], a.M)
+			obs := e.finish(vals[a.From], a.M, hasModel(paths[a.From]))
 			iso, err := isolated(real, paths[a.From], a.M)
 			if err != nil {
 				return nil, err
@@ -302,7 +353,7 @@ func replay(args []string) error {
 
 var methods = []string{"Where", "WhereMap", "Or", "Not", "Select", "Omit", "Order", "Limit", "Offset", "Group", "Joins", "Distinct", "Unscoped",
 	"Scopes", "Returning", "Returning", "OrderByC", "Locking", "OnConflict", "Table", "Model", "Attrs", "Assign"}
-var hows = []string{"Session", "WithContext", "Debug"}
+var hows = []string{"Session", "WithContext", "Debug", "SessionNewDB", "SessionCtx", "SessionNewDBCtx", "SessionSkipHooks", "SessionNewDBSkipHooks", "SessionNewDBPrepare", "SessionFull"}
 var finishersDry = []string{"Find", "First", "Take", "Count", "Pluck", "Update", "Delete", "Scan", "FirstOrInit", "Create"}
 var finishersReal = []string{"Find", "First", "Count", "Pluck", "Scan", "FirstOrInit"}
 
@@ -366,8 +417,14 @@ func random(args []string) error {
 				next++
 			case c < 7 && len(reus) < 4:
 				x := chains[r.Intn(len(chains))]
+				if r.Intn(3) == 0 {
+					x = reus[r.Intn(len(reus))] // a handle derived straight from a reusable handle, which stays in use
+				}
 				ops = append(ops, Op{Op: "session", From: x, To: next, M: hows[r.Intn(len(hows))]})
-				kind[x], kind[next] = "dead", "reusable"
+				if kind[x] == "chain" {
+					kind[x] = "dead"
+				}
+				kind[next] = "reusable"
 				next++
 			default:
 				all := append(append([]int{}, reus...), chains...)
